@@ -1137,6 +1137,7 @@ def run(rep, tier, seed, replay=None):
                        cx(r['end']), 'replay'), float.fromhex(r['t0']), float.fromhex(r['t1']))
             elif 'path' in r:
                 from svgpathtools import Path, Line, QuadraticBezier, CubicBezier, Arc
+                import numpy as np
                 rp = (eval(r['path']), float.fromhex(r['T0_hex']), float.fromhex(r['T1_hex']), 'replay', 'replay')
         nbez = nbnt = narc = nant = npa = npnt = 0
         bmodes = afams = pfams = phows = {}
